@@ -437,7 +437,80 @@ def rule_script_sig_is_pushes(ctx: Ctx, rep: Report) -> None:
     rep.floor(rule, 5)
 
 
+def rule_cltv_own_sequence(ctx: Ctx, rep: Report) -> None:
+    """C10.cltv_own_sequence: BIP65's last condition is about the input being
+    verified: "the nSequence field of the txin is 0xffffffff". The refusal in
+    `op_checklocktimeverify` reads `tx.vin[i].sequence`, i being the input it
+    was called for -- asked of every input, a spend the library builds with an
+    after() leaf beside any input left at the default final sequence is
+    refused by the library's own engine."""
+    rule = "C10.cltv_own_sequence"
+    fi = ctx.func("btclib.script.engine.script_op_codes.op_checklocktimeverify")
+    ix = [p_ for p_ in fi.params() if p_ in ("i", "vin_i", "input_index")] or [fi.params()[2]]
+    tests = [i for i in own_nodes(fi.node) if isinstance(i, ast.If) and any(isinstance(x, ast.Raise) for x in i.body) and "sequence" in str(norm(i.test))]
+    if len(tests) != 1:
+        rep.unknown(rule, "op_checklocktimeverify", fi.where(), f"{len(tests)} refusals on a sequence")
+        return
+    t = tests[0].test
+    own = any(isinstance(x, ast.Subscript) and isinstance(x.slice, ast.Name) and x.slice.id in ix and str(norm(x.value)).endswith(".vin") for x in ast.walk(t))
+    walks = any(isinstance(x, (ast.GeneratorExp, ast.ListComp, ast.comprehension)) for x in ast.walk(t))
+    rep.ob(rule, "op_checklocktimeverify:final_sequence", own and not walks, fi.where(tests[0]), "the sequence asked about is the verified input's own" if own and not walks else
+           f"`{norm(t)[:70]}` is not a question about the input being verified alone")
+    rep.floor(rule, 1)
+
+
+def rule_tapscript_table_complete(ctx: Ctx, rep: Report) -> None:
+    """C10.tapscript_table_complete: BIP342 changes three op codes of the legacy
+    interpreter -- CHECKMULTISIG and CHECKMULTISIGVERIFY are disabled,
+    CHECKSIGADD is new -- and leaves every other one as it is. The tapscript
+    dispatch table is the legacy table with exactly that difference: an entry
+    forgotten in one of the two (OP_0NOTEQUAL, which the n: wrapper of a
+    miniscript leaf compiles to) makes the engine refuse, in a tr() leaf, the
+    very script it accepts under wsh()."""
+    rule = "C10.tapscript_table_complete"
+
+    def keys(modname: str) -> tuple[set[str], str]:
+        mi = ctx.module(modname)
+        for st in mi.tree.body:
+            tg = st.target if isinstance(st, ast.AnnAssign) else st.targets[0] if isinstance(st, ast.Assign) else None
+            if isinstance(tg, ast.Name) and tg.id == "OPERATIONS" and isinstance(st.value, ast.Dict):
+                return {k.value for k in st.value.keys if isinstance(k, ast.Constant)}, f"{mi.relpath}:{st.lineno}"
+        raise AnalysisError(f"{modname}.OPERATIONS not found")
+    legacy, _w1 = keys("btclib.script.engine.script")
+    tap, w2 = keys("btclib.script.engine.tapscript")
+    want = (legacy - {"OP_CHECKMULTISIG", "OP_CHECKMULTISIGVERIFY"}) | {"OP_CHECKSIGADD"}
+    # op codes each interpreter loop handles inline (not through the table) are the same two loops' business: compare what the tables hold
+    missing, extra = sorted(want - tap), sorted(tap - want)
+    rep.ob(rule, "OPERATIONS", not missing and not extra, w2, f"{len(tap)} entries: the legacy table minus the two CHECKMULTISIGs plus CHECKSIGADD" if not missing and not extra else
+           f"the tapscript table lacks {missing} and has {extra} beyond the legacy table's BIP342 image")
+    rep.floor(rule, 1)
+
+
+def rule_multi_a_one_key_order(ctx: Ctx, rep: Report) -> None:
+    """C10.multi_a_one_key_order: a multi_a() / sortedmulti_a() leaf writes its keys
+    into the script in one order (sorted, for the second) and its satisfaction
+    lists one witness element per key in the reverse of that order: script and
+    stack are built from the *same* sequence, `self._pub_keys(...)`. A stack
+    built over `self.keys`, the written order, puts the signatures of a
+    sortedmulti_a() under the wrong keys wherever sorting moved one."""
+    rule = "C10.multi_a_one_key_order"
+    ci = ctx.cls("btclib.descriptors.descriptors.MultiA")
+    n = 0
+    for name in ("_script", "_stack"):
+        m = ci.methods[name]
+        uses = any(isinstance(c, ast.Call) and isinstance(c.func, ast.Attribute) and c.func.attr == "_pub_keys" for c in own_nodes(m.node))
+        raw = [x for x in own_nodes(m.node) if isinstance(x, (ast.For, ast.comprehension)) and str(norm(x.iter)) in ("self.keys", "reversed(self.keys)")]
+        n += 1
+        rep.ob(rule, f"MultiA.{name}", uses and not raw, m.where(raw[0].iter if raw else None), "walks self._pub_keys(...)" if uses and not raw else
+               f"`MultiA.{name}` walks {'`self.keys`' if raw else 'something other than self._pub_keys(...)'}: not the order the script holds the keys in")
+    rep.floor(rule, 2)
+
+
 RULES = [
+    ("C10.cltv_own_sequence", rule_cltv_own_sequence),
+    ("C10.tapscript_table_complete", rule_tapscript_table_complete),
+    ("C10.multi_a_one_key_order", rule_multi_a_one_key_order),
+
     ("C10.script_sig_is_pushes", rule_script_sig_is_pushes),
 
     ("C10.control_blocks_prove", rule_control_blocks_prove),
